@@ -250,13 +250,13 @@ pub fn plan(prop: &str, tier: &str) -> Option<Plan> {
                     s.push(e2(prop, "big", hk, "look1+mut+ch0+shape2", &[], 4, "chk", 900.0));
                 }
                 for &hk in &HS4 {
-                    s.push(sweep(prop, "u32", hk, if hk == H_CONST { 3_000 } else { 1_000_000 }, &["cheap"], &[("stride", "3"), ("audit_every", "50000"), ("mix", "1")], "chk", 600.0));
+                    s.push(sweep(prop, "u32", hk, if hk == H_CONST { 3_000 } else if hk == H_LOW { 30_000 } else { 1_000_000 }, &["cheap"], &[("stride", "3"), ("audit_every", "50000"), ("mix", "1")], "chk", 600.0));
                 }
                 s.push(sweep(prop, "tk", H_GOOD, 200_000, &["cheap"], &[("stride", "8"), ("audit_every", "20000"), ("mix", "1")], "chk", 600.0));
                 for &hk in &HS4 {
                     s.push(e1(prop, "u32", hk, 0, "look1+mut+ch0+shape", &[], if hk == H_CONST { 600 } else { 2500 }, 1, 0, "chk", 900.0));
                 }
-                bounds = json!({"E7": "growth path to 10^6 elements (u32; 2*10^5 Tk) with a mixed call menu against the reference", "E1": "d<=1 at N=130 (4 hashers x initial capacities {0,1,4,29,200} x {u32,Tk}); d<=2 at N=64; d<=3 at N=31", "E2": "fixpoint over u=6 (HGood,HLow) / u=5 (HConst,HTag) keys; full alphabet at u=3; ZST"});
+                bounds = json!({"E7": "growth path to 10^6 elements (u32 with HGood / HTag; 3*10^4 with the 4-valued HLow, 3*10^3 with HConst, whose probe sequences are linear in the size; 2*10^5 Tk) with a mixed call menu against the reference", "E1": "d<=1 at N=130 (4 hashers x initial capacities {0,1,4,29,200} x {u32,Tk}); d<=2 at N=64; d<=3 at N=31", "E2": "fixpoint over u=6 (HGood,HLow) / u=5 (HConst,HTag) keys; full alphabet at u=3; ZST"});
             }
         }
         "C02" => {
@@ -413,7 +413,7 @@ pub fn plan(prop: &str, tier: &str) -> Option<Plan> {
                     if prof == "chk" {
                         s.push(e1(prop, "tk", H_GOOD, 0, "rmold/look1+mut1+ch0+iterlite+clone", &fl, 72, 2, 0, prof, 45.0));
                         s.push(e1(prop, "tk", H_GOOD, 0, "look1+mut+ch0+shape+iterlite", &fl, 300, 1, 0, prof, 45.0));
-                        s.push(e1(prop, "tk", H_LOW, 0, "rmold/rmold/look1+mut1+ch0+iterlite", &fl, 72, 3, 0, prof, 45.0));
+                        s.push(e1(prop, "tk", H_LOW, 0, "rmold/rmold/look1+mut1+ch0+iterlite", &fl, 66, 3, 0, prof, 45.0)); // (the resize that starts at 57 elements is over at 64)
                     } else {
                         s.push(e1(prop, "tk", H_GOOD, 0, "rmold", &fl, 72, 1, 0, prof, 45.0));
                     }
